@@ -305,7 +305,13 @@ async fn handle_stream_append(
         let mut bytes_written = 0;
 
         while let Some(frame) = body.frame().await {
-            if let Ok(data) = frame?.into_data() {
+            // a body that cannot be read (bad chunk framing, fewer bytes than announced) is the
+            // client's error; nothing has been committed to the CAS yet
+            let frame = match frame {
+                Ok(frame) => frame,
+                Err(e) => return response_400(format!("invalid request body: {e}")),
+            };
+            if let Ok(data) = frame.into_data() {
                 writer.write_all(&data).await?;
                 bytes_written += data.len();
             }
@@ -371,7 +377,11 @@ async fn handle_cas_post(store: &mut Store, mut body: hyper::body::Incoming) -> 
         let mut bytes_written = 0;
 
         while let Some(frame) = body.frame().await {
-            if let Ok(data) = frame?.into_data() {
+            let frame = match frame {
+                Ok(frame) => frame,
+                Err(e) => return response_400(format!("invalid request body: {e}")),
+            };
+            if let Ok(data) = frame.into_data() {
                 writer.write_all(&data).await?;
                 bytes_written += data.len();
             }
@@ -546,7 +556,10 @@ async fn handle_head_get(
 }
 
 async fn handle_import(store: &mut Store, body: hyper::body::Incoming) -> HTTPResult {
-    let bytes = body.collect().await?.to_bytes();
+    let bytes = match body.collect().await {
+        Ok(collected) => collected.to_bytes(),
+        Err(e) => return response_400(format!("invalid request body: {e}")),
+    };
     let frame: Frame = match serde_json::from_slice(&bytes) {
         Ok(frame) => frame,
         Err(e) => return response_400(format!("Invalid frame JSON: {}", e)),
